@@ -460,6 +460,9 @@ def part_round3(ctx):
     ctx.explanation += ("R-SYM round3: the helper that turns an interpolated cube-coordinate point of the path into a cell converts its three coordinates alike, each "
                         "to the nearest integer (a directed conversion of one of them is reported). ")
     ctx.floor("R-SYM", "cube rounding helpers reachable from gridPathCells", n, 1)
+    n = rules_sym.check_interp_width(ctx, module(CFG[0], "ssa"), CFG[0])
+    ctx.explanation += ("R-SYM width: the coordinates handed to that helper are computed in double precision (no float-typed value in their backward slice). ")
+    ctx.floor("R-SYM", "calls of the cube rounding helper", n, 1)
 
 
 def part_qloop(ctx):
